@@ -27,7 +27,7 @@ pub struct Rec {
 pub fn addr_of(ac: u16) -> u32 {
     // addresses sharing long prefixes / suffixes on purpose (a table keyed by a prefix would merge them)
     if ac < 6 {
-        [0x4840d6, 0x4840d7, 0x4840e6, 0x5840d6, 0xa840d6, 0x000001][ac as usize]
+        [0x4840d6, 0x4840d7, 0x4840e6, 0x5840d6, 0xa840d6, 0x000000][ac as usize]
     } else {
         // the crowd: up to 6000 further aircraft, low and middle address bits both vary
         0x200000 + (ac as u32 - 6) % 6000 * 0x401
@@ -155,6 +155,13 @@ fn run_table(pool: &Pool, recs: &[(usize, &Rec)]) -> Value {
         .iter()
         .map(|(idx, r)| {
             let mut o = json!({"ts": r.ts, "frame": hex::encode(frame_of(r)), "serial": 7});
+            // one record in three was heard by further receivers up to a second later (the deduplicator merges their
+            // receptions into the record; the record's time stays that of the first arrival)
+            match r.val % 3 {
+                0 => o["receptions"] = json!([[8, r.ts + 0.03], [9, r.ts + 0.97]]),
+                1 if r.kind % 2 == 0 => o["receptions"] = json!([[9, r.ts + 0.5]]),
+                _ => {}
+            }
             if let Some((la, lo)) = injected_position(r, *idx) {
                 o["lat"] = json!(la);
                 o["lon"] = json!(lo);
